@@ -1,7 +1,7 @@
 #!/bin/sh
 # usage: try_mutant.sh <patch.diff> <property> [tier]  - apply to /repo, run the check, always revert
 set -u
-P=$1; ID=$2; TIER=${3:-quick}
+P=$(readlink -f "$1"); ID=$2; TIER=${3:-quick}
 cd /repo || exit 9
 git diff --quiet || { echo "/repo not clean"; exit 9; }
 git apply "$P" || { echo "patch does not apply"; exit 9; }
